@@ -68,7 +68,8 @@ var (
 )
 
 // fixtureNews renders (once) the ThreadedNews.yaml of the fixture with the real news manager:
-// TopCat (category, 1 article), Bundle (bundle) containing Cat (category, 1 article).
+// TopCat (category, 1 article), Bundle (bundle) containing Cat (category, 1 article) and the bundle Sub with
+// categories and bundles at depth 3 and 4.
 func fixtureNews() string {
 	newsOnce.Do(func() {
 		ts, err := newTS(TSOpt{Direct: true})
@@ -80,9 +81,17 @@ func fixtureNews() string {
 		n.CreateGrouping([]string{}, "TopCat", hotline.NewsCategory)
 		n.CreateGrouping([]string{}, "Bundle", hotline.NewsBundle)
 		n.CreateGrouping([]string{"Bundle"}, "Cat", hotline.NewsCategory)
+		// depth 3 and 4: Bundle/Sub/{DeepCat, DeepBundle}, Bundle/Sub/DeepBundle/{Cat4, Bundle4}
+		n.CreateGrouping([]string{"Bundle"}, "Sub", hotline.NewsBundle)
+		n.CreateGrouping([]string{"Bundle", "Sub"}, "DeepCat", hotline.NewsCategory)
+		n.CreateGrouping([]string{"Bundle", "Sub"}, "DeepBundle", hotline.NewsBundle)
+		n.CreateGrouping([]string{"Bundle", "Sub", "DeepBundle"}, "Cat4", hotline.NewsCategory)
+		n.CreateGrouping([]string{"Bundle", "Sub", "DeepBundle"}, "Bundle4", hotline.NewsBundle)
 		art := hotline.NewsArtData{Title: "t", Poster: "p", DataFlav: hotline.NewsFlavor, Data: "article body"}
 		n.PostArticle([]string{"TopCat"}, 0, art)
 		n.PostArticle([]string{"Bundle", "Cat"}, 0, art)
+		n.PostArticle([]string{"Bundle", "Sub", "DeepCat"}, 0, art)
+		n.PostArticle([]string{"Bundle", "Sub", "DeepBundle", "Cat4"}, 0, art)
 		b, err := os.ReadFile(filepath.Join(ts.Cfg, "ThreadedNews.yaml"))
 		if err != nil {
 			panic(err)
@@ -124,6 +133,13 @@ func newWorld(requester, otherAccess hotline.AccessBitmap) (*world, error) {
 	mustWrite(filepath.Join(r, "Drop Box", "secret.txt"), "secret")
 	mustWrite(filepath.Join(r, "Uploads", "taken.bin"), "taken")
 	mustWrite(filepath.Join(r, "plain", "p.txt"), "p")
+	// aliases (what HandleMakeAlias creates: symlinks with absolute targets inside the root)
+	for _, a := range [][2]string{{"afile.txt", "alias_file"}, {"adir", "alias_dir"}, {"adir/inner.txt", "adir/alias_inner"}} {
+		if err := os.Symlink(filepath.Join(r, a[0]), filepath.Join(r, a[1])); err != nil {
+			ts.Close()
+			return nil, err
+		}
+	}
 	w.rq, w.rqC = directClientWith(ts, "req", "10.0.0.1:1000", requester)
 	w.rq.UserName = []byte("req-name")
 	w.oc, w.ocC = directClientWith(ts, "other", ocIP+":5555", otherAccess)
@@ -243,6 +259,12 @@ func fileTargetFields(kind string) []hotline.Field {
 		return []hotline.Field{fld(hotline.FieldFileName, []byte("adir"))}
 	case "nestedfile":
 		return []hotline.Field{fld(hotline.FieldFileName, []byte("inner.txt")), fld(hotline.FieldFilePath, fpath("adir"))}
+	case "aliasFile": // an alias whose target is a file: governed like a file (Stat follows the link)
+		return []hotline.Field{fld(hotline.FieldFileName, []byte("alias_file"))}
+	case "aliasFolder":
+		return []hotline.Field{fld(hotline.FieldFileName, []byte("alias_dir"))}
+	case "nestedAliasFile":
+		return []hotline.Field{fld(hotline.FieldFileName, []byte("alias_inner")), fld(hotline.FieldFilePath, fpath("adir"))}
 	case "missing":
 		return []hotline.Field{fld(hotline.FieldFileName, []byte("nope.txt"))}
 	case "root":
@@ -257,8 +279,10 @@ func fileTargetFields(kind string) []hotline.Field {
 
 func modelKind(kind string) string {
 	switch kind {
-	case "nestedfile":
+	case "nestedfile", "aliasFile", "nestedAliasFile":
 		return "file"
+	case "aliasFolder":
+		return "folder"
 	case "rootexplicit":
 		return "root"
 	}
@@ -283,9 +307,9 @@ func buildRows() []row {
 	uid := func(c *hotline.ClientConn) []byte { return c.ID[:] }
 
 	// ---- files
-	for _, k := range []string{"file", "folder", "nestedfile", "missing", "root", "rootexplicit", "badPath"} {
+	for _, k := range []string{"file", "folder", "nestedfile", "aliasFile", "aliasFolder", "nestedAliasFile", "missing", "root", "rootexplicit", "badPath"} {
 		k := k
-		exp := map[string]string{"file": "changed", "folder": "changed", "nestedfile": "changed", "missing": "err", "root": "err", "rootexplicit": "err"}[k]
+		exp := map[string]string{"file": "changed", "folder": "changed", "nestedfile": "changed", "aliasFile": "changed", "aliasFolder": "changed", "nestedAliasFile": "changed", "missing": "err", "root": "err", "rootexplicit": "err"}[k]
 		add(row{name: "deleteFile/" + k, tokens: []string{"deleteFile", modelKind(k)}, governing: byKindBits(k, 0, 6), expect: exp,
 			build: func(w *world) hotline.Transaction { return tr(hotline.TranDeleteFile, fileTargetFields(k)...) }})
 		add(row{name: "moveFile/" + k, tokens: []string{"moveFile", modelKind(k)}, governing: byKindBits(k, 4, 8), expect: exp,
@@ -293,18 +317,19 @@ func buildRows() []row {
 				return tr(hotline.TranMoveFile, append(fileTargetFields(k), fld(hotline.FieldFileNewPath, fpath("movedest")))...)
 			}})
 		if k != "badPath" {
-			e2 := map[string]string{"file": "data", "folder": "data", "nestedfile": "data", "missing": "data", "root": "err", "rootexplicit": "err"}[k]
+			e2 := map[string]string{"file": "data", "folder": "data", "nestedfile": "data", "aliasFile": "data", "aliasFolder": "data", "nestedAliasFile": "data", "missing": "data", "root": "err", "rootexplicit": "err"}[k]
 			add(row{name: "getFileInfo/" + k, tokens: []string{"getFileInfo", modelKind(k)}, expect: e2,
 				build: func(w *world) hotline.Transaction { return tr(hotline.TranGetFileInfo, fileTargetFields(k)...) }})
 		}
 	}
-	for _, k := range []string{"file", "folder", "nestedfile"} {
+	for _, k := range []string{"file", "folder", "nestedfile", "aliasFile", "aliasFolder", "nestedAliasFile"} {
 		k := k
-		name := map[string]string{"file": "afile.txt", "folder": "adir", "nestedfile": "adir/inner.txt"}[k]
+		name := map[string]string{"file": "afile.txt", "folder": "adir", "nestedfile": "adir/inner.txt",
+			"aliasFile": "alias_file", "aliasFolder": "alias_dir", "nestedAliasFile": "adir/alias_inner"}[k]
 		dir := filepath.Dir(name)
 		base := filepath.Base(name)
 		cbit, rbit := 28, 3
-		if k == "folder" {
+		if modelKind(k) == "folder" {
 			cbit, rbit = 29, 7
 		}
 		commented := func(w *world) bool {
@@ -612,7 +637,13 @@ func buildRows() []row {
 		{"category", "category", newsPath("TopCat"), []int{35}, "changed"},
 		{"nestedCategory", "category", newsPath("Bundle", "Cat"), []int{35}, "changed"},
 		{"bundle", "bundle", newsPath("Bundle"), []int{37}, "changed"},
+		{"depth3Category", "category", newsPath("Bundle", "Sub", "DeepCat"), []int{35}, "changed"},
+		{"depth3Bundle", "bundle", newsPath("Bundle", "Sub", "DeepBundle"), []int{37}, "changed"},
+		{"depth4Category", "category", newsPath("Bundle", "Sub", "DeepBundle", "Cat4"), []int{35}, "changed"},
+		{"depth4Bundle", "bundle", newsPath("Bundle", "Sub", "DeepBundle", "Bundle4"), []int{37}, "changed"},
+		{"depth2Bundle", "bundle", newsPath("Bundle", "Sub"), []int{37}, "changed"},
 		{"missing", "missing", newsPath("Nope"), []int{37}, "reply"},
+		{"deepMissing", "missing", newsPath("Bundle", "Sub", "Nope"), []int{37}, "reply"},
 		{"emptyPath", "badPath", nil, nil, ""},
 	} {
 		k := k
@@ -974,7 +1005,7 @@ func c05Rows() []row {
 func init() {
 	props["C05"] = func(x *Ctx) {
 		rows := c05Rows()
-		x.rule = fmt.Sprintf("decision table: %d rows (all 43 registered handlers × target kinds file/folder/nested/missing/root/bad path, category/bundle/nested/missing, upload folder/drop box/plain/root/nested, existing/missing account or user, protected/unprotected target × ban options, field-presence variants, multi-effect requests) × requester bitmaps (all-zero, all ones, each single privilege 0..40, all-but-one for every privilege governing a row of the same transaction type; thorough tier: all-but-one for each of 0..40 = 84 bitmaps); every invocation on its own real server with a file tree, account dir, threaded news, message board, ban file, 3 clients, 1 private chat; full before/after snapshot. thorough adds random bitmaps. non-trivial = invocation of a row that has a governing privilege (the handler reaches a guard); distinct = distinct (row, bitmap)", len(rows))
+		x.rule = fmt.Sprintf("decision table: %d rows (all 43 registered handlers × target kinds file/folder/nested/alias to a file/alias to a folder/missing/root/bad path, category/bundle at depth 1..4/missing, upload folder/drop box/plain/root/nested, existing/missing account or user, protected/unprotected target × ban options, field-presence variants, multi-effect requests) × requester bitmaps (all-zero, all ones, each single privilege 0..40, all-but-one for every privilege governing a row of the same transaction type; thorough tier: all-but-one for each of 0..40 = 84 bitmaps); every invocation on its own real server with a file tree, account dir, threaded news, message board, ban file, 3 clients, 1 private chat; full before/after snapshot. thorough adds random bitmaps. non-trivial = invocation of a row that has a governing privilege (the handler reaches a guard); distinct = distinct (row, bitmap)", len(rows))
 		x.assume = []string{
 			"direct mode: handlers are called with ClientConns built like handleNewConnection builds them; the requester's in-memory bitmap is set directly",
 			"governing privileges per row are written in harness/c05.go from the property statement and cross-checked with Spec.governing",
